@@ -20,6 +20,8 @@ import (
 	"runtime"
 	"sort"
 	"strings"
+	"sync/atomic"
+	"time"
 )
 
 // Ev is one trace event: input fields filled by a generator, observation
@@ -52,6 +54,48 @@ type TableReport struct {
 }
 
 var props = map[string]Prop{}
+
+// ---- watchdog: a call into the library that does not return is a finding, not a stuck check ----
+var (
+	wdTick    int64 // advanced by tick() whenever a unit of work (a history, a table row) completes
+	wdCurrent atomic.Value
+	wdOut     string // directory where hang.ndjson is written
+)
+
+func tick(current interface{}) {
+	atomic.AddInt64(&wdTick, 1)
+	wdCurrent.Store(current)
+}
+
+// startWatchdog aborts the process with exit status 3 when no unit of work completes for `limit`.
+// The unit that was running is written to <wdOut>/hang.ndjson so that bin/check can report and replay it.
+func startWatchdog(limit time.Duration) {
+	go func() {
+		last, since := int64(-1), time.Now()
+		for {
+			time.Sleep(500 * time.Millisecond)
+			cur := atomic.LoadInt64(&wdTick)
+			if cur != last {
+				last, since = cur, time.Now()
+				continue
+			}
+			if time.Since(since) > limit {
+				if h, ok := wdCurrent.Load().([]Ev); ok && wdOut != "" {
+					if f, err := os.Create(filepath.Join(wdOut, "hang.ndjson")); err == nil {
+						enc := json.NewEncoder(f)
+						for i, e := range h {
+							e["h"], e["i"], e["first"] = 0, i, i == 0
+							enc.Encode(e)
+						}
+						f.Close()
+					}
+				}
+				fmt.Fprintf(os.Stderr, "gotsverif: HANG no progress for %v\n", limit)
+				os.Exit(3)
+			}
+		}
+	}()
+}
 
 func register(id string, p Prop) { props[id] = p }
 
@@ -127,7 +171,11 @@ func doGen(id string, p Prop, tier string, seed int64, out string, nshards int) 
 		sum.Shards = append(sum.Shards, name)
 	}
 	hid := 0
+	wdOut = out
+	os.Remove(filepath.Join(out, "hang.ndjson"))
+	startWatchdog(hangLimit())
 	p.Gen(tier, seed, func(h []Ev) {
+		tick(h)
 		evs := p.Exec(h)
 		k := hid % nshards
 		enc := json.NewEncoder(files[k])
@@ -207,6 +255,17 @@ func checkNarrow(v interface{}, path string) {
 	}
 }
 
+func hangLimit() time.Duration {
+	if v := os.Getenv("VERIF_HANG_S"); v != "" {
+		var n int
+		fmt.Sscanf(v, "%d", &n)
+		if n > 0 {
+			return time.Duration(n) * time.Second
+		}
+	}
+	return 60 * time.Second
+}
+
 func readEvents(path string) []Ev {
 	f, err := os.Open(path)
 	if err != nil {
@@ -245,7 +304,10 @@ func doReplay(p Prop, in, out string) {
 	}
 	w := bufio.NewWriter(f)
 	enc := json.NewEncoder(w)
+	wdOut = filepath.Dir(out)
+	startWatchdog(hangLimit())
 	for hid, h := range hs {
+		tick(h)
 		res := p.Exec(h)
 		for i, e := range res {
 			e["h"] = hid
@@ -261,6 +323,12 @@ func doReplay(p Prop, in, out string) {
 func doTable(tp TableProp, in, out, tier string, seed int64) {
 	rows := readEvents(in)
 	rep := &TableReport{Rows: len(rows), Classes: map[string]int{}}
+	// table comparisons are CPU-bound enumerations: only a generous global limit applies
+	go func() {
+		time.Sleep(45 * time.Minute)
+		fmt.Fprintln(os.Stderr, "gotsverif: HANG table comparison did not finish in 45 minutes")
+		os.Exit(3)
+	}()
 	tp.Table(rows, tier, seed, rep)
 	if len(rep.Mismatches) > 200 {
 		rep.Mismatches = rep.Mismatches[:200]
